@@ -1200,12 +1200,11 @@ def join(
         right >>= rename({col: col.name + user_suffix for col in right})
 
     elif right_names & left_names:
+        # find the smallest counter for which *no* suffixed right name collides with a
+        # left name (independent of the iteration order of the name set)
         cnt = 0
-        for name in right_names:
-            suffixed = name + suffix + (f"_{cnt}" if cnt > 0 else "")
-            while suffixed in left_names:
-                cnt += 1
-                suffixed = name + suffix + f"_{cnt}"
+        while any(name + suffix + (f"_{cnt}" if cnt > 0 else "") in left_names for name in right_names):
+            cnt += 1
 
         if cnt > 0:
             suffix += f"_{cnt}"
